@@ -25,7 +25,8 @@ are 1-based item numbers, 0 = end of chain; `Hash == 0` marks a removed item.
                  arithmetic is in `Nat`: the 32-bit wrap of `size_sum * new_capacity` and of
                  `Capacity()*2` needs a table of >= 2^27 slots and is outside the model (see notes).
   values         moved/copied/disposed C++ objects are plain values; `Value_T{}` is `default`.
-  aliasing       operands are values, so `h += h` (source = destination) cannot be expressed here.
+  aliasing       operands are values; `h += h` (source = destination) is the separate operation
+                 `selfMerge`, which the repaired headers make a no-op (`if (this == &src) return;`).
 
 No proofs in this file.  Line numbers refer to the headers as of this commit.
 -/
@@ -362,6 +363,8 @@ inductive Op (V : Type) where
   | move
   /-- `dst += src` where `src` is a fresh table built by `Insert`s then `Remove`s. -/
   | merge (ins : List (List Nat × V)) (rem : List (List Nat))
+  /-- `h += h` (HArray.hpp / HList.hpp `if (this == &src) return;`): nothing happens. -/
+  | selfMerge
 
 inductive Out (V : Type) where
   | unit
@@ -406,6 +409,7 @@ def step [Inhabited V] (H : List Nat → Nat) (ord : Nat → Nat) (s : HT V) : O
     match buildOperand H ins rem with
     | none => none
     | some src => (merge s src).map (·, .unit)
+  | .selfMerge => some (s, .unit)
 
 /-- Run a whole operation sequence from a given state, collecting outputs. -/
 def run [Inhabited V] (H : List Nat → Nat) (ord : Nat → Nat) : HT V → List (Op V) → Option (HT V × List (Out V))
